@@ -92,6 +92,7 @@ u8 _ZN3tbb6detail2d021timed_spin_wait_untilIZNS0_2r124concurrent_monitor_mutex4l
 int main(void) {
   vp_arena_prestate(&MA.a, (struct S_class_tbb__detail__r1__threading_control*)TC, 2, 1, SLOTDISP);
   vp_ta_set(&TA, &MA.a);
+  VP_ASSERT(vp_ta_get(&TA) == &MA.a, "pre-state: the task_arena refers to the arena under test (see vp_i2p)");
   vp_td_prestate(&TD_E, &MHOME_E.a, &DISP_E);
   unsigned perm = HAS_L ? 1 - LSLOT : 0;            /* slot of the occupant that never leaves (the worker W, if present) */
   { int ok = vp_slot_occupy(&MA.a, perm); VP_ASSERT(ok, "pre-state: permanent occupant"); }
@@ -111,16 +112,6 @@ int main(void) {
 #endif
 #if HAS_W
   START(T_W)(GATE ? &TD_E : &TD_W, HAS_L ? 2 : 1);
-#endif
-#ifdef PROBE
-  vp_cur = 0; vp_thr_entrant_a_cs = (unsigned)vp_nd_range(PROBE_LO, PROBE_N); vp_thr_entrant_a_step();
-#if PROBE > 1
-  VP_RUNT(T_L, 1)
-#endif
-#if PROBE > 2
-  VP_RUNT(vp_thr_entrant_a, 0)
-#endif
-  VP_REACHED(); return 0;
 #endif
   for (int r = 0; r < ROUNDS; r++) {
     VP_RUNT(vp_thr_entrant_a, 0)
